@@ -45,6 +45,7 @@ theorem Q.eq_of_beq : ∀ (a b : Q), Q.beq a b = true → a = b
     rename_i q' s'
     have := Q.eq_of_beq q q' h.1
     simp_all
+  | .opq _ _, b, h => by cases b <;> simp_all [Q.beq]
 theorem Q.eqList_of_beqList : ∀ (as bs : List Q), Q.beqList as bs = true → as = bs
   | [], [], _ => rfl
   | a :: as, b :: bs, h => by
@@ -69,6 +70,7 @@ theorem Q.beq_refl : ∀ (a : Q), Q.beq a a = true
   | .not q _ => by simp [Q.beq, Q.beq_refl q]
   | .bin _ x y => by simp [Q.beq, Q.beq_refl x, Q.beq_refl y]
   | .const q _ => by simp [Q.beq, Q.beq_refl q]
+  | .opq _ _ => by simp [Q.beq]
 theorem Q.beqList_refl : ∀ (as : List Q), Q.beqList as as = true
   | [] => rfl
   | a :: as => by simp [Q.beqList, Q.beq_refl a, Q.beqList_refl as]
@@ -153,6 +155,7 @@ theorem withBoost_field : ∀ (q : Q) (b : Rat), (q.withBoost b).field = q.field
   | .bin .andmaybe x y, b => by simp [Q.withBoost, Q.field, withBoost_field x b, withBoost_field y b]
   | .bin .otherwise x y, b => by simp [Q.withBoost, Q.field, withBoost_field x b, withBoost_field y b]
   | .const q _, b => by simp [Q.withBoost, Q.field, withBoost_field q b]
+  | .opq _ _, _ => rfl
 
 /-- `with_boost` never changes which documents match. -/
 theorem withBoost_sat (env : Env) : ∀ (q : Q) (b : Rat), sat env (q.withBoost b) = sat env q
@@ -173,6 +176,7 @@ theorem withBoost_sat (env : Env) : ∀ (q : Q) (b : Rat), sat env (q.withBoost 
   | .bin .otherwise x y, b => by
     funext d; simp [Q.withBoost, sat, withBoost_sat env x b, withBoost_sat env y b]
   | .const q _, b => by funext d; simp [Q.withBoost, sat, withBoost_sat env q b]
+  | .opq _ _, _ => rfl
 
 
 /-! ### A query with a field only matches documents that have a term in that field -/
@@ -288,6 +292,11 @@ theorem field_sound (env : Env) : ∀ (q : Q) (f : Field) (d : Doc),
     simp only [Q.field] at hf
     simp only [sat] at hs
     exact field_sound env q f d hf hs
+  | .opq none _, _, _, hf, _ => by simp [Q.field] at hf
+  | .opq (some g) _, f, d, hf, hs => by
+    simp only [Q.field, Option.some.injEq] at hf; subst hf
+    simp only [sat, Bool.and_eq_true] at hs
+    exact hs.1
 theorem field_sound_all (env : Env) : ∀ (qs : List Q) (f : Field) (d : Doc),
     (∀ q ∈ qs, q.field = some f) → qs ≠ [] → satAll env qs d = true → hasField d f = true
   | [], _, _, _, hne, _ => absurd rfl hne
